@@ -3,7 +3,8 @@
    with its cache threaded through, calc_omen_keyspace with the level / IP /
    length loops and the max_keyspace cut-off, pcfg_omen_prob), against
    theories/OmenSpec.v (what the Markov generator must emit per level).
-   Proofs: theories/OmenKeyspaceProofs.v. *)
+   Proofs: theories/OmenKeyspaceProofs.v; the translator tie at the end: theories/OmenRt.v,
+   gen/OmenKeyspace_gen.v, theories/OmenKeyspaceGenProofs.v. *)
 From Coq Require Import List Arith NArith ZArith Floats.
 From Pcfg Require Import OmenSpec OmenLevel OmenKeyspace OmenLevelProofs OmenKeyspaceProofs.
 From PcfgGen Require Import Consts_gen.
